@@ -6,6 +6,8 @@ import (
 	"fmt"
 	"go/parser"
 	"go/token"
+	"os"
+	"path/filepath"
 	"strings"
 
 	"github.com/dave/dst"
@@ -37,7 +39,7 @@ func init() {
 		ID:    "C15",
 		Level: "model_checking",
 		Rule: "for every corpus template: every prefix and suffix, every single-byte insertion and substitution from a 20-byte alphabet at every offset, every token deleted / duplicated / swapped with its neighbour, every pair of token deletions; " +
-			"plus every string of <=5 (quick) / <=6 (thorough) lexemes over a 20-lexeme alphabet; each through decorator.Parse and Decorator.ParseFile in 4 parser modes, and Fprint of every tree returned; " +
+			"plus every string of <=5 (quick) / <=6 (thorough) lexemes over a 20-lexeme alphabet; each through decorator.Parse, and (all but the byte-edit and pair inputs) Decorator.ParseFile in 4 parser modes and decorator.ParseDir on a directory holding the input next to a valid file, and Fprint of every tree returned; " +
 			"oracle: no panic escapes; state = distinct input; non-trivial = input rejected by go/parser (error paths)",
 		Assumptions:      []string{"corruptions are single/double edits of corpus files and short lexeme strings"},
 		CrashIsViolation: true,
@@ -197,6 +199,10 @@ func c15Check(src string, allModes bool) (core.Outcome, bool) {
 		return *o, rejected
 	}
 	if allModes {
+		// ParseDir: the input as one file of a directory next to a valid sibling
+		if p := guard(func() { c15ParseDir(src) }); p != "" {
+			return core.Outcome{Key: "parsedir-panic:" + short(p, 120), Desc: fmt.Sprintf("decorator.ParseDir panicked on a directory holding this file: %s\ninput: %q", p, src)}, rejected
+		}
 		for _, m := range c15Modes {
 			m := m
 			if o := run(fmt.Sprintf("Decorator.ParseFile(mode=%d)", m), func() (*dst.File, error) {
@@ -207,4 +213,24 @@ func c15Check(src string, allModes bool) (core.Outcome, bool) {
 		}
 	}
 	return core.Outcome{OK: true}, rejected
+}
+
+func c15ParseDir(src string) {
+	dir, err := scratchDir("c15dir")
+	if err != nil {
+		panic(err)
+	}
+	defer os.RemoveAll(dir)
+	os.WriteFile(filepath.Join(dir, "a.go"), []byte(src), 0o644)
+	os.WriteFile(filepath.Join(dir, "b.go"), []byte("package a\n\nvar ok = 1\n"), 0o644)
+	pkgs, err := decorator.ParseDir(token.NewFileSet(), dir, nil, 0)
+	if err != nil {
+		return
+	}
+	for _, p := range pkgs {
+		for _, f := range p.Files {
+			var buf bytes.Buffer
+			_ = decorator.Fprint(&buf, f)
+		}
+	}
 }
